@@ -22,6 +22,7 @@ AWKWARD = ["null", "~", "yes", "No", "on", "1e3", "0x1F", "1_000", ".inf", "-.In
            "&a", "*a", "!t", "|", "> x", "%x", "@x", "`x", "'x", "\"x\"", "[x", "{x", "]x", "}x", ",x", "x,y", "?", "x?", "a: ", " x", "x ", "  ",
            "x\ny", "x\ny\n", "\nx", "x\ty", "\t", "---", "...", "--- x", "café", "πρ", "中文", "\u0085", "﻿x", " ", "\x07", "\x00x" if False else "\x1b",
            "a" * 300, "x: y: z", "key: [1, 2]", "{a: 1}", "'", "\"", "\\", "\\n", "%", "2001-01-01", "12:30:45", "=", "<<"]
+AWKWARD += ["a\u0085b", "a\u2028b", "a\u2029b", "a\u00a0b", "\u0085x", "x\u0085", "a\rb", "a\r\nb", "\ufffe", "a\x7fb", "a\u009fb", "\ud7ff", "\ue000"]
 F13 = ["?x", "? x", ": x", "?key: v"]
 F14 = ["\U0001F600", "a\U00010000b"]
 NUMBERS = [0.1 + 0.2, 1 / 3, 1e22, 1e23, 123456789.123456789, 2.0 ** 70, 5e-324 * 2 ** 60, 1e-7, 100, 7, 1.0, 1e16, 9007199254740993, 0.5, 2.5e-5]
@@ -151,6 +152,46 @@ def check_graph(ctx, g, doc, kind, tmpdir, known=None):
         ctx.violation(f"str(graph) raises {type(e).__name__}", {"document": show(canon_doc(doc))})
 
 
+def string_sweep(ctx):
+    """every awkward string in every position that takes free text, through the three text routes
+    (YAML, JSON, JSON text read by the YAML loader), on one small graph — deterministic"""
+    base = {"time_units": "generations", "demes": [{"name": "A", "epochs": [{"start_size": 100}]}]}
+    for s in AWKWARD:
+        for pos in ("description", "doi", "metadata_leaf", "metadata_key", "deme_description", "time_units"):
+            d = copy.deepcopy(base)
+            if pos == "description":
+                d["description"] = s
+            elif pos == "doi":
+                d["doi"] = [s, "plain"]
+            elif pos == "metadata_leaf":
+                d["metadata"] = {"k": s, "n": {"deep": [s, {"z": s}]}}
+            elif pos == "metadata_key":
+                d["metadata"] = {s: 1, "other": {s: [s]}}
+            elif pos == "deme_description":
+                d["demes"][0]["description"] = s
+            elif pos == "time_units":
+                if not s or s == "generations":
+                    continue
+                d["time_units"] = s; d["generation_time"] = 1
+            try:
+                g = demes.Graph.fromdict(d)
+            except Exception:  # noqa: BLE001
+                continue
+            a = g.asdict()
+            yt = demes.dumps(g, format="yaml", simplified=True)
+            jt = demes.dumps(g, format="json", simplified=False)
+            for name, fn in (("dumps/loads yaml simplified=True", lambda: demes.loads(yt, format="yaml")),
+                             ("dumps/loads json simplified=False", lambda: demes.loads(jt, format="json")),
+                             ("json text through the yaml loader", lambda: demes.loads(jt, format="yaml"))):
+                ctx.count({"sweep": pos, "string": s, "variant": name}, True, tags=["string_sweep:" + pos])
+                try:
+                    why = None if same_graph(fn().asdict(), a) else "loads back as a different graph"
+                except Exception as e:  # noqa: BLE001
+                    why = f"fails to load back ({type(e).__name__})"
+                if why:
+                    ctx.violation(f"{name}: {why}", {"document": show(canon_doc(d)), "variant": name})
+
+
 def codec_laws(ctx, values):
     """the hypothesis of the Lean theorems: parse(serialise(v)) == v on plain values"""
     from demes import load_dump as LD
@@ -187,6 +228,7 @@ def run(ctx):
         for extra, known in (({"doi": ["?x"]}, "F13"), ({"metadata": {"k": ": x"}}, "F13"), ({"description": "\U0001F600"}, "F14")):
             d = dict(base, **extra)
             check_graph(ctx, demes.Graph.fromdict(d), d, "corpus:" + known, tmpdir, known)
+        string_sweep(ctx)
         done = 0
         while done < n and ctx.time_left() > 15:
             models = gen_models(ctx, min(40, n - done), max_demes=5)
